@@ -70,12 +70,21 @@ def exact(v):
 
 def render_module(params, defaults, calls):
     sig = ", ".join(p if defaults[p] is NO else f"{p}={lit(defaults[p])}" for p in params)
-    lines = ["import dds", "", "", f"def f({sig}):", f"    return ('f', {', '.join(params)})", "", ""]
+    lines = ["import dds", "", "", "def g(z):", "    return ('g', z)", "", "",
+             f"def f({sig}):", f"    return ('f', g({params[0]}), {', '.join(params)})", "", ""]
     for i, (pos, kws) in enumerate(calls):
         if not in_source_ok(pos, kws):
             continue
         a = ", ".join([lit(v) for v in pos] + [f"{k}={lit(v)}" for k, v in kws])
         lines += [f"def w{i}():", f"    return dds.keep('/s', f{', ' if a else ''}{a})", "", ""]
+    # two kept calls of f in ONE evaluation (different bindings, different paths)
+    ok = [i for i, (pos, kws) in enumerate(calls) if in_source_ok(pos, kws)]
+    for n, (i, j) in enumerate(zip(ok, ok[1:] + ok[:1])):
+        def txt(k):
+            pos, kws = calls[k]
+            a = ", ".join([lit(v) for v in pos] + [f"{kk}={lit(v)}" for kk, v in kws])
+            return f"f{', ' if a else ''}{a}"
+        lines += [f"def wp{i}():", f"    t = dds.keep('/t', {txt(j)})", f"    s = dds.keep('/s', {txt(i)})", "    return (s, t)", "", ""]
     return "\n".join(lines)
 
 
@@ -122,6 +131,12 @@ class Env(object):
         self.dds.eval(getattr(mod, f"w{i}"))
         return self.cap.last_sigs()["/s"]
 
+    def sig_pair(self, mod, i):
+        self.cap.reset_log()
+        self.cap.inner.__init__()
+        self.dds.eval(getattr(mod, f"wp{i}"))
+        return self.cap.last_sigs()["/s"]
+
 
 _env = [None]
 
@@ -153,9 +168,11 @@ def check_case(case, ev=None):
         routes = [("direct", None)]
         if in_source_ok(pos, kws):
             routes.append(("source", i))
+            if hasattr(mod, f"wp{i}"):
+                routes.append(("source-after-another-kept-call", i))
         for route, wi in routes:
             try:
-                s = e.sig_direct(mod, pos, kws) if route == "direct" else e.sig_source(mod, wi)
+                s = e.sig_direct(mod, pos, kws) if route == "direct" else (e.sig_source(mod, wi) if route == "source" else e.sig_pair(mod, wi))
             except BaseException as ex:
                 raise Violation(
                     f"{route} call f({pos}, {kws}) of def f({sig_text(params, defaults)}) failed: {type(ex).__name__}: {ex}", case
